@@ -88,6 +88,14 @@ pub fn err_wrapped_by_helper() -> io::Result<()> {
         Err(e) => return refuse(&e),
     }
 }
+/// the failure is answered by a local helper that can only return an Err (no use of the error value itself)
+pub fn err_refused_by_helper(flag: bool) -> io::Result<()> {
+    let refuse = || -> io::Result<()> { Err(io::Error::new(io::ErrorKind::Other, "refused")) };
+    match std::fs::remove_file("x") {
+        Ok(()) if flag => Ok(()),
+        _ => return refuse(),
+    }
+}
 pub fn err_panics() {
     std::fs::remove_file("x").unwrap();
 }
